@@ -290,7 +290,8 @@ def exp_paths(ctx, rng, root, k):
     dup = len({(g, s) for g, s, _ in pool}) < len(pool)
     bad = any(i is None for _, _, i in pool)
     try:
-        res = CompaSOHaloCatalog._setup_file_paths(None, [str(p) for p in paths], cleaned=False)
+        # a bare instance, not None: the method may be split into helper methods of the class
+        res = CompaSOHaloCatalog._setup_file_paths(CompaSOHaloCatalog.__new__(CompaSOHaloCatalog), [str(p) for p in paths], cleaned=False)
         real = ('ok', [int(v) for v in res[3]], [str(f) for f in res[4]])
     except ValueError as e:
         msg = str(e)
